@@ -330,3 +330,101 @@ Definition layout (keys : list path) : list path :=
   flat_map layout_node
     (isort node_path path_cmp
        (map sort_tree (pkg_tree (fun l => l) keys))).
+
+(* per-module item sequence predicted for the correspondence check: the groups of write_items in the
+   order write_stream reaches them (only modules that received items carry text) *)
+Section Layout.
+  Variable item : Type.
+  Variable mod_path : item -> path.
+  Definition layout_items (items : list item) : list (path * list item) :=
+    let groups := group_by mod_path path_eqb items in
+    flat_map (fun p => match find (fun g => path_eqb (fst g) p) groups with
+                       | Some g => [g]
+                       | None => []
+                       end)
+             (layout (map fst groups)).
+End Layout.
+
+(* ---- protobuf front end: Lower::lower_message (parser/protobuf/mod.rs) ------------------------------
+   A message contributes its own item and, when it has nested items, a module holding
+     the oneof enums (declaration order) ++ the lowered nested messages ++ the nested enums.
+   `nested_messages` is an AHashMap (fully qualified nested name -> descriptor) built by `collect`
+   (a later duplicate key overwrites an earlier one); its iteration order is the permutation parameter
+   pi_nested.
+     repaired code (fix F-17a, /repo commit 2235d86): the nested messages are taken from
+       `message.nested_type` in declaration order; the map is only *looked up* (lower_ty: is the field's
+       type a map-entry message?)                                                     -> lower_message
+     pinned code: the nested messages were taken from `nested_messages.iter()`       -> lower_message_pinned
+   Only what matters to ordering is kept of a descriptor: name, map_entry option, the type names of the
+   fields, the oneof names, the nested messages, the nested enum names. *)
+Inductive pmsg :=
+  PMsg (name : string) (map_entry : bool) (field_types : list string) (oneofs : list string)
+       (nested : list pmsg) (enums : list string).
+Definition pm_name (m : pmsg) : string := match m with PMsg n _ _ _ _ _ => n end.
+Definition pm_map_entry (m : pmsg) : bool := match m with PMsg _ b _ _ _ _ => b end.
+
+Inductive pitem :=
+| PIMessage (name : string) (field_is_map : list bool)
+| PIOneof (name : string)
+| PIEnum (name : string)
+| PIMod (name : string) (items : list pitem).
+
+(* content of `iter.collect::<AHashMap<_,_>>()`: one entry per key, a later pair replaces the value of an
+   earlier one (listed in first-insertion order; the real order is pi_nested) *)
+Fixpoint amap_put {V} (m : list (string * V)) (k : string) (v : V) : list (string * V) :=
+  match m with
+  | [] => [(k, v)]
+  | (k', v') :: r => if (k =? k')%string then (k', v) :: r else (k', v') :: amap_put r k v
+  end.
+Definition amap_collect {V} (l : list (string * V)) : list (string * V) :=
+  fold_left (fun m kv => amap_put m (fst kv) (snd kv)) l [].
+
+Section Nested.
+  Variable pi_nested : list (string * pmsg) -> list (string * pmsg).
+
+  (* nested_messages.get(name), by scanning the entries in the order the table happens to hold them *)
+  Definition amap_get (table : list (string * pmsg)) (k : string) : option pmsg :=
+    option_map snd (find (fun kv => (fst kv =? k)%string) table).
+
+  (* lower_ty: Map(..) iff the type name is a nested map-entry message, otherwise Path(..) *)
+  Definition field_is_map (table : list (string * pmsg)) (type_name : string) : bool :=
+    match amap_get table type_name with Some m => pm_map_entry m | None => false end.
+
+  Definition mk_items (name : string) (fmap : list bool) (nested_items : list pitem) : list pitem :=
+    match nested_items with
+    | [] => [PIMessage name fmap]
+    | _ => [PIMessage name fmap; PIMod name nested_items]
+    end.
+
+  (* repaired code *)
+  Fixpoint lower_message (m : pmsg) : list pitem :=
+    match m with
+    | PMsg name _ fts oneofs nested enums =>
+        let table := pi_nested (amap_collect (map (fun n => (pm_name n, n)) nested)) in
+        let lowered :=
+          (fix go (l : list pmsg) : list pitem :=
+             match l with
+             | [] => []
+             | n :: r => if pm_map_entry n then go r else lower_message n ++ go r
+             end) nested in
+        mk_items name (map (field_is_map table) fts)
+                 (map PIOneof oneofs ++ lowered ++ map PIEnum enums)
+    end.
+
+  (* pinned code: `nested_messages.iter().filter(|(_, m)| !m.options.has_map_entry()).for_each(lower_message)`;
+     the values come out of the table, so the recursion is on fuel (nesting depth + 1 suffices) *)
+  Fixpoint lower_message_pinned (fuel : nat) (m : pmsg) : list pitem :=
+    match fuel with
+    | 0 => []
+    | S f =>
+        match m with
+        | PMsg name _ fts oneofs nested enums =>
+            let table := pi_nested (amap_collect (map (fun n => (pm_name n, n)) nested)) in
+            let lowered :=
+              flat_map (fun kv => lower_message_pinned f (snd kv))
+                       (filter (fun kv => negb (pm_map_entry (snd kv))) table) in
+            mk_items name (map (field_is_map table) fts)
+                     (map PIOneof oneofs ++ lowered ++ map PIEnum enums)
+        end
+    end.
+End Nested.
